@@ -261,3 +261,29 @@ Example crl_check_example :
   cr_result (fst (crl_check f2 100 0 7 false [1; 2])) = RUnknown /\
   cr_result (fst (crl_check f3 100 0 7 false [1; 2])) = RRevoked.
 Proof. repeat split; reflexivity. Qed.
+
+(* ---- the passage of time only ever invalidates: a refused bundle is refused at every later
+   instant, an accepted one was acceptable at every earlier instant ---- *)
+Lemma validate_crl_antitone now now' c : now <= now' -> validate_crl now' c = true -> validate_crl now c = true.
+Proof.
+  unfold validate_crl. intros L H.
+  destruct (l_sig_ok c); [|discriminate]. destruct (l_next c =? 0); [discriminate|].
+  cbn [andb negb] in *. destruct (existsb lext_bad (l_exts c)); [rewrite andb_false_r in H; discriminate|].
+  rewrite andb_true_r in *. destruct (l_next c <? now') eqn:E; [discriminate|].
+  apply Z.ltb_ge in E. assert (l_next c <? now = false) as -> by (apply Z.ltb_ge; lia). reflexivity.
+Qed.
+
+Theorem bundle_antitone now now' b : now <= now' -> validate_bundle now' b = true -> validate_bundle now b = true.
+Proof.
+  unfold validate_bundle. intros L H. apply andb_true_iff in H. destruct H as [H1 H2].
+  rewrite (validate_crl_antitone _ _ _ L H1). cbn [andb].
+  destruct (b_delta b) as [d|]; [|reflexivity].
+  apply andb_true_iff in H2. destruct H2 as [H2 H3].
+  rewrite (validate_crl_antitone _ _ _ L H2). exact H3.
+Qed.
+
+Theorem expired_stays_refused now now' b : now <= now' -> validate_bundle now b = false -> validate_bundle now' b = false.
+Proof.
+  intros L H. destruct (validate_bundle now' b) eqn:E; [|reflexivity].
+  rewrite (bundle_antitone _ _ _ L E) in H. discriminate.
+Qed.
